@@ -68,10 +68,85 @@ theorem may_block :
       step s .mJoin = none ∧ wInF s.w = true := by
   refine ⟨_, rfl, ?_, ?_, ?_⟩ <;> decide
 
+/-! #### The trace automaton is itself safe: what it accepts has nothing running at return -/
+
+/-- Net number of workers inside `f` contributed by an observed event sequence. -/
+def openCount : List Obs → Int
+  | [] => 0
+  | .fStart :: r => 1 + openCount r
+  | .fEnd _ :: r => -1 + openCount r
+  | .fKilled :: r => -1 + openCount r
+  | .ret _ :: r => openCount r
+
+private theorem go_balanced (o : Outcome) (post : List Obs) :
+    ∀ (pre : List Obs) (ph : Nat) (r : Bool), obsAccepts.go ph r (pre ++ .ret o :: post) = true →
+      (if ph = 1 then (1 : Int) else 0) + openCount pre = 0 := by
+  intro pre
+  induction pre with
+  | nil =>
+    intro ph r h
+    simp only [List.nil_append, obsAccepts.go, Bool.and_eq_true, bne_iff_ne, ne_eq] at h
+    simp [openCount, h.1.1.2]
+  | cons e pre ih =>
+    intro ph r h
+    cases e with
+    | fStart =>
+      simp only [List.cons_append, obsAccepts.go, Bool.and_eq_true, beq_iff_eq] at h
+      have := ih 1 r h.2
+      simp only [openCount, h.1.1]
+      simp at this ⊢; omega
+    | fEnd ok =>
+      simp only [List.cons_append, obsAccepts.go, Bool.and_eq_true, beq_iff_eq] at h
+      have := ih _ r h.2
+      simp only [openCount, h.1]
+      cases ok <;> simp at this ⊢ <;> omega
+    | fKilled =>
+      simp only [List.cons_append, obsAccepts.go, Bool.and_eq_true, beq_iff_eq] at h
+      have := ih 4 r h.2
+      simp only [openCount, h.1]
+      simp at this ⊢; omega
+    | ret o' =>
+      simp only [List.cons_append, obsAccepts.go, Bool.and_eq_true] at h
+      have := ih ph true h.2
+      simpa [openCount] using this
+
+/-- **Accepted observed traces are safe**: whenever the caller gets control back (`ret o`) in a trace
+    the automaton accepts, every `f_start` seen so far has been matched by an `f_end` / `f_killed` –
+    no worker is inside `f` at that moment. (Unbounded: any prefix, any suffix.) -/
+theorem accepted_trace_nothing_running (pre post : List Obs) (o : Outcome)
+    (h : obsAccepts (pre ++ .ret o :: post) = true) : openCount pre = 0 := by
+  have := go_balanced o post pre 0 false h
+  simpa using this
+
+private theorem go_true_no_ret (o : Outcome) (post : List Obs) :
+    ∀ (l : List Obs) (ph : Nat), obsAccepts.go ph true (l ++ .ret o :: post) = false := by
+  intro l
+  induction l with
+  | nil => intro ph; simp [obsAccepts.go]
+  | cons e l ih =>
+    intro ph
+    cases e <;> simp [obsAccepts.go, ih]
+
+private theorem go_two_rets (o o' : Outcome) (mid post : List Obs) :
+    ∀ (pre : List Obs) (ph : Nat) (r : Bool),
+      obsAccepts.go ph r (pre ++ (.ret o :: (mid ++ (.ret o' :: post)))) = false := by
+  intro pre
+  induction pre with
+  | nil => intro ph r; simp [obsAccepts.go, go_true_no_ret]
+  | cons e pre ih =>
+    intro ph r
+    cases e <;> simp [obsAccepts.go, ih]
+
+/-- … and the caller gets control back at most once per call: a trace with two returns is rejected. -/
+theorem accepted_trace_single_return (pre mid post : List Obs) (o o' : Outcome) :
+    obsAccepts (pre ++ (.ret o :: (mid ++ (.ret o' :: post)))) = false :=
+  go_two_rets o o' mid post pre 0 false
+
 /-! Non-vacuity -/
 example : (run init [.wStart 0, .wFinish true, .mGet]).map (·.m) = some (.done .ret) := by decide
 example : (run init [.wStart 0, .mExpire, .mInject, .wDeliver, .mJoin]).map (·.m) = some (.done .timeout) := by decide
 example : obsAccepts (trace init [.wStart 0, .mExpire, .mInject, .wDeliver, .mJoin]) = true := by decide
 example : trace init [.wStart 0, .mExpire, .mInject, .wDeliver, .mJoin] = [.fStart, .fKilled, .ret .timeout] := by decide
+example : obsAccepts ([.fStart, .fKilled] ++ .ret .timeout :: []) = true ∧ openCount [.fStart, .fKilled] = 0 := by decide
 
 end Adsg.C19
